@@ -18,7 +18,38 @@ def realtime(ctx, run):
     return res
 
 
+def long_wait_holes(rng, cid0):
+    """several waiters filed in ONE bucket of the long wait table (same deadline second; a wait reaches the long table
+    after its eighth re-check, i.e. with T > 44 s), some of them leaving early -- cancelled at different stages of their
+    wait, or granted -- so that the bucket has holes when the sweeper drains it: every remaining waiter must still get
+    its TIMEOUT at the deadline (and exactly one reply)"""
+    cases = []
+    for j in range(4):
+        key = 71 + j
+        n = rng.choice([3, 4, 6, 9])
+        T = rng.choice([46, 50, 60, 100])
+        lines = ["case %d 1000000 %d %d" % (cid0 + j, rng.choice([0, 1]), rng.choice([0, 1]))]
+        rid = 795000 + 1000 * j
+        lines.append("req 1 L %d 0 9800 %d 0 0 0 600 0 0 -" % (rid, key)); rid += 1
+        for i in range(n):
+            lines.append("req %d L %d 0 %d %d 0 %d 0 30 0 0 -" % (2 + i % 3, rid, 9801 + i, key, T)); rid += 1
+        leave = sorted(rng.sample(range(n - 1), rng.randrange(1, n - 1)) if n > 2 else [0])
+        when = {i: rng.choice([1, 20, 41, 44, 45, T - 2, T - 1]) for i in leave}
+        for t in range(1, T + 21):
+            lines += ["adv 1", "sweept", "sweepe"]
+            for i in leave:
+                if when[i] == t:
+                    lines.append("req %d U %d 2 %d %d 0 0 0 0 0 0 -" % (2 + i % 3, rid, 9801 + i, key)); rid += 1
+        lines += ["adv 0", "role 1"]
+        for _ in range(3):
+            lines.append("req 1 U %d 1 0 %d 0 0 0 0 0 0 -" % (rid, key)); rid += 1
+        lines += ["adv 1", "sweept", "sweepe"] * 10 + ["adv 100", "sweept", "sweepe"] + ["adv 1", "sweept", "sweepe"] * 10
+        lines.append("end")
+        cases.append(lines)
+    return cases
+
+
 def run(ctx):
     if getattr(ctx, "replay", None):
         return _engine.replay(ctx, 'C05', MONITORS)
-    return _engine.run_engine_check(ctx, 'C05', PROFILES, MONITORS, n_quick=450, n_thorough=18000, impl_only=realtime)
+    return _engine.run_engine_check(ctx, 'C05', PROFILES, MONITORS, n_quick=450, n_thorough=18000, impl_only=realtime, extra_cases=long_wait_holes)
